@@ -132,9 +132,36 @@ def project_c02(code, rng, n_conv=10, full_synd_below=20, n_synd=10):
     synd = []
     for v in errs:
         s = np.asarray(code.measure_syndrome(v)).ravel()
-        synd.append({'e': codes.bsf_to_op(v, n),
-                     's': [int(i) for i in np.nonzero(s)[0]]})
+        item = {'e': codes.bsf_to_op(v, n),
+                's': [int(i) for i in np.nonzero(s)[0]], 'sx': [], 'sz': [], 'lens': [0, 0]}
+        if rec['is_css']:
+            sx = np.asarray(code.extract_x_syndrome(s)).ravel()
+            sz = np.asarray(code.extract_z_syndrome(s)).ravel()
+            item['sx'] = [int(i) for i in np.nonzero(sx)[0]]
+            item['sz'] = [int(i) for i in np.nonzero(sz)[0]]
+            item['lens'] = [int(sx.shape[0]), int(sz.shape[0])]
+        synd.append(item)
     rec['synd'] = synd
+    # membership / indexing helpers of the coordinate API
+    types = sorted({str(code.stabilizer_type(tuple(c))) for c in sc})
+    tindex = []
+    for t in types:
+        ti = code.type_index(t)
+        tindex.append(sorted(int(v) for v in ti.values()))
+    spos = {tuple(c): i for i, c in enumerate(sc)}
+    rec['api'] = {
+        'n_stabilizers': int(code.n_stabilizers),
+        'qubits_are_qubits': bool(all(code.is_qubit(tuple(c)) for c in qc)),
+        'stabs_are_not_qubits': bool(not any(code.is_qubit(tuple(c)) for c in sc)),
+        'stabs_are_stabs': bool(all(code.is_stabilizer(tuple(c)) for c in sc)),
+        'qubits_are_not_stabs': bool(not any(code.is_stabilizer(tuple(c)) for c in qc)),
+        'typed_membership': bool(all(
+            code.is_stabilizer(tuple(c), t) == (str(code.stabilizer_type(tuple(c))) == t)
+            for c in sc for t in types)),
+        'type_index': tindex,
+        'qubit_index': [int(code.qubit_index[tuple(c)]) for c in qc],
+        'stabilizer_index': [int(code.stabilizer_index[tuple(c)]) for c in sc],
+    }
     rec['twin'] = []
     return rec
 
@@ -316,6 +343,10 @@ def run(tier):
                  'raw_stabs': [], 'stabs': [], 'xmask': [], 'zmask': [],
                  'is_css': True, 'hx': [], 'hz': [], 'hx_ok': True,
                  'hx_raises': False, 'conv': [], 'unconv': [], 'synd': [],
+                 'api': {'n_stabilizers': 0, 'qubits_are_qubits': True,
+                         'stabs_are_not_qubits': True, 'stabs_are_stabs': True,
+                         'qubits_are_not_stabs': True, 'typed_membership': True,
+                         'type_index': [], 'qubit_index': [], 'stabilizer_index': []},
                  'twin': [{'a': a[k], 'b': b[k]} for k in a]}
             meta[r['id']] = ('twin', f'{lab}#hashseed')
             recs.append(r)
